@@ -6,6 +6,7 @@ import (
 	"fmt"
 	"go/token"
 	"go/types"
+	"math"
 	"strings"
 
 	"golang.org/x/tools/go/ssa"
@@ -17,6 +18,7 @@ func init() {
 		{Name: "qos2-arm-removed", Rule: "R17.1", Where: "(*Publish).WellFormed", Edits: []Edit{{"publish.go", "\tcase 1, 2:\n\t\tif p.packetID == 0 {\n\t\t\treturn newMalformed(p, \"packet ID\", \"empty\")", "\tcase 1:\n\t\tif p.packetID == 0 {\n\t\t\treturn newMalformed(p, \"packet ID\", \"empty\")"}}},
 		{Name: "qos3-accepted", Rule: "R17.1", Where: "(*Publish).WellFormed", Edits: []Edit{{"publish.go", "\tcase 3:\n\t\treturn newMalformed(p, \"QoS\", \"invalid\")\n\t}\n\n\treturn nil", "\t}\n\n\treturn nil"}}},
 		{Name: "filter-qos-test-weakened", Rule: "R17.1", Where: "(*TopicFilter).WellFormed", Edits: []Edit{{"topicfilter.go", "\tif c.options.Has(byte(OptQoS3)) {\n\t\treturn newMalformed(c, \"QoS\", \"invalid\")", "\tif c.options.Has(byte(OptQoS1)) {\n\t\treturn newMalformed(c, \"QoS\", \"invalid\")"}}},
+		{Name: "subid-limit-checked-through-signed-accessor", Rule: "R17.1", Where: "(*Subscribe).WellFormed", Edits: []Edit{{"subscribe.go", "if v := p.subscriptionID; v != nil && *v > 268_435_455 {", "if p.SubscriptionID() > 268_435_455 {"}}},
 		{Name: "subid-limit-off-by-one", Rule: "R17.1", Where: "(*Subscribe).WellFormed", Edits: []Edit{{"subscribe.go", "*v > 268_435_455 {", "*v > 268_435_456 {"}}},
 		{Name: "only-first-filter-checked", Rule: "R17.1", Where: "(*Subscribe).WellFormed", Edits: []Edit{{"subscribe.go", "\tfor _, f := range p.filters {\n\t\tif err := f.WellFormed(); err != nil {\n\t\t\treturn err\n\t\t}\n\t}\n\treturn nil", "\tfor _, f := range p.filters {\n\t\treturn f.WellFormed()\n\t}\n\treturn nil"}}},
 		{Name: "string-skips-withform", Rule: "R17.2", Where: "(*Subscribe).String", Edits: []Edit{{"subscribe.go", "\treturn withForm(p, fmt.Sprintf(\"%s p%v %s %v bytes\",\n\t\tfirstByte(p.fixed).String(),\n\t\tp.packetID,\n\t\tp.filterString(),\n\t\tp.width(),\n\t))", "\treturn fmt.Sprintf(\"%s p%v %s %v bytes\",\n\t\tfirstByte(p.fixed).String(),\n\t\tp.packetID,\n\t\tp.filterString(),\n\t\tp.width(),\n\t)"}}},
@@ -322,7 +324,12 @@ func checkSubscribeWF(p *Prog, c *Check) {
 	n := 0
 	bad := ""
 	for _, nf := range []int64{0, 1, 2, 3} {
-		for _, sub := range []int64{-1, 0, 1, limit, limit + 1} { // -1: absent
+		// the identifier cell is unsigned: bit patterns above the int range are legal contents (SetSubscriptionID(-1))
+		subs := []int64{-1, 0, 1, limit, limit + 1, 1 << 31, 1<<32 - 1}
+		if p.U.Sizes.Sizeof(types.Typ[types.Uint]) == 8 {
+			subs = append(subs, math.MinInt64, -2) // 2^63 and 2^64-2 as bit patterns
+		}
+		for subIdx, sub := range subs { // index 0 (-1): absent
 			keys := []string{}
 			dom := map[string][]sv{}
 			for k := int64(0); k < nf; k++ {
@@ -343,7 +350,7 @@ func checkSubscribeWF(p *Prog, c *Check) {
 					a2[k] = v
 				}
 				a2[fpath(0, fFilters)] = sv{k: 's', i: nf, b: nf == 0, addr: fpath(0, fFilters)}
-				if sub < 0 {
+				if subIdx == 0 {
 					a2[fpath(0, fSub)] = sv{k: 'p'}
 				} else {
 					a2[fpath(0, fSub)] = sv{k: 'p', addr: "SUB"}
@@ -356,7 +363,7 @@ func checkSubscribeWF(p *Prog, c *Check) {
 					bad = "cannot evaluate the predicate: " + ctx.why
 					return false
 				}
-				want := nf == 0 || sub > limit
+				want := nf == 0 || (subIdx != 0 && uint64(sub) > limit)
 				for k := int64(0); k < nf; k++ {
 					if a[keys[2*k]].i == 0 || a[keys[2*k+1]].i&3 == 3 {
 						want = true
@@ -380,7 +387,7 @@ func checkSubscribeWF(p *Prog, c *Check) {
 	if bad != "" {
 		c.Bad("R17.1", cons, p.Pos(fn.Pos()), bad)
 	} else {
-		c.OK("R17.1", cons, p.Pos(fn.Pos()), fmt.Sprintf("error ⇔ no filter ∨ id > 268 435 455 ∨ some filter empty or requesting QoS 3, on all %d assignments (0–3 filters, id absent/0/1/limit/limit+1)", n))
+		c.OK("R17.1", cons, p.Pos(fn.Pos()), fmt.Sprintf("error ⇔ no filter ∨ id > 268 435 455 ∨ some filter empty or requesting QoS 3, on all %d assignments (0–3 filters, id absent/0/1/limit/limit+1/2^31/2^32-1/2^63/2^64-2)", n))
 	}
 }
 
